@@ -1,8 +1,1136 @@
-//! stub — to be written
-use crate::core::{Acc, Ctx};
-use serde_json::Value;
-pub const RULE: &str = "";
-pub const ASSUMPTIONS: &[&str] = &[];
-pub fn bounds(_quick: bool) -> Value { Value::Null }
-pub fn run(_ctx: &Ctx, _acc: &mut Acc) {}
-pub fn replay(_v: &Value) -> Option<(bool, String)> { None }
+//! C11 — metadata blocks survive a write/read round trip and report their sizes correctly.
+//! Shape G: full products of boundary menus for every field of every block type, every ordered pair of block
+//! kinds, the invalid-list menu, and the converse direction over every produced section and over every accepted
+//! single-byte substitution of ten small sections.  Oracle: equality of typed values, an independent header walk and
+//! an independent size model (field lengths), and an independent model of the single-instance / size rules.
+use crate::core::{guarded, hex, panic_loc, unhex, Acc, Ctx};
+use bitstream_io::SignedBitCount;
+use flac_codec::metadata::contiguous::Contiguous;
+use flac_codec::metadata::cuesheet::{CDDAOffset, Digit, Index, IndexVec, LeadOutCDDA, LeadOutNonCDDA, TrackCDDA, TrackNonCDDA, ISRC};
+use flac_codec::metadata::{
+    read_block, read_blocks, read_info, write_blocks, Application, AsBlockRef, Block, BlockList, BlockRef, BlockSize, BlockType, Cuesheet, MetadataBlock, Padding, Picture, PictureType, SeekPoint, SeekTable,
+    Streaminfo, VorbisComment,
+};
+use serde_json::{json, Value};
+use std::num::NonZero;
+
+pub const RULE: &str = "(1) STREAMINFO: full product min/max block size {0,16,65535}² × min/max frame size {None,1,2^24-1}² × rate {0,1,2^20-1} × channels 1..8 × depth 1..32 × total {None,1,2^36-1} × md5 {None,Some} (373248 values) + all-zero md5 + 8 out-of-range literals; (2) every other block value alone behind a STREAMINFO: padding {0,1,2^24-1,2^24}; application id {0,'riff',2^32-1} × data length {0,1,2^24-5,2^24-4}; every seek-point sequence of length 0..3 over a 6-symbol alphabet (incl. placeholders and the 2^64-1 sample offset) + tables of 932067 / 932068 points; comments: 3 vendor strings × every entry sequence of length 0..3 over 7 entries (empty, no '=', multi-byte UTF-8, NUL, 2^16-byte value) + a 2^24-byte entry; pictures: 21 types × 3 media types × 3 descriptions × 3 dimension tuples × data length {0,1,70000} + Picture::new over PNG/JPEG/GIF for every type + 2^24-byte data; cue sheets through Cuesheet::parse and through the public variants/constructors: CD-DA tracks {1,2,99,100} × indices {1,2,99,100,101} × INDEX 00 yes/no × catalog {none,13} × 5 ISRC forms × pre-emphasis (× non-audio × lead-in {0,88200,2^64-1} for the constructor path), non-CD-DA tracks {1,2,254,255} × indices {1,2,255,256,257} × INDEX 00 × catalog {0,13,128,129} × 5 ISRC forms × pre-emphasis (× non-audio); (3) every ordered pair of 13 representative blocks (all 6×6 kind pairs) as a slice and through BlockList::insert; (4) invalid lists (no/late/duplicate STREAMINFO, two seek tables, two comments, two PNG icons, two general icons, oversize blocks in every position); each written list is checked by an independent header walk (types, last flag, length fields, total), bytes()/total_size() against a field-length model, BlockList::read, read_blocks, read_info and read_block::<T> for all 7 T against the typed originals, and by the converse read→write→read; (5) converse on foreign bytes: 10 small sections × every single-byte substitution, every accepted one is written again and re-read";
+pub const ASSUMPTIONS: &[&str] = &[
+    "field values are taken from boundary menus (listed in the rule); strings/binary payloads use fixed fill patterns",
+    "combination lists are limited to pairs of optional blocks behind one STREAMINFO",
+    "foreign byte sections in the converse direction are single-byte substitutions of 10 small valid sections",
+];
+pub fn bounds(quick: bool) -> Value {
+    json!({"streaminfo": "full product, 373248 values", "single_blocks": "full products of the menus in the rule", "pairs": "13×13 representatives × {slice, BlockList}", "converse_substitutions": "10 sections × every position × 255 values",
+        "triples": if quick { "not run" } else { "13×13×13 representatives × {slice, BlockList}" }})
+}
+
+// ---------------------------------------------------------------------------------------------
+// value specifications (JSON) → typed blocks through the public constructors
+
+const PTYPES: [PictureType; 21] = [
+    PictureType::Other,
+    PictureType::Png32x32,
+    PictureType::GeneralFileIcon,
+    PictureType::FrontCover,
+    PictureType::BackCover,
+    PictureType::LinerNotes,
+    PictureType::MediaLabel,
+    PictureType::LeadArtist,
+    PictureType::Artist,
+    PictureType::Conductor,
+    PictureType::Band,
+    PictureType::Composer,
+    PictureType::Lyricist,
+    PictureType::RecordingLocation,
+    PictureType::DuringRecording,
+    PictureType::DuringPerformance,
+    PictureType::ScreenCapture,
+    PictureType::Fish,
+    PictureType::Illustration,
+    PictureType::BandLogo,
+    PictureType::PublisherLogo,
+];
+const ISRCS: [&str; 5] = ["", "AA6Q72000047", "AA-6Q7-20-00047", "AA6Q720", "AA6Q7200004712345"];
+const MD5_PATTERN: [u8; 16] = *b"\x01\x23\x45\x67\x89\xab\xcd\xef\xfe\xdc\xba\x98\x76\x54\x32\x10";
+
+fn pat(len: usize, seed: u8) -> Vec<u8> {
+    (0..len).map(|i| (i as u8).wrapping_mul(131).wrapping_add(seed)).collect()
+}
+/// a string spec is either a JSON string or {"pre":..,"fill":..,"n":..} = pre + fill repeated n times
+fn text(v: &Value) -> String {
+    match v {
+        Value::String(s) => s.clone(),
+        Value::Object(_) => format!("{}{}", v["pre"].as_str().unwrap_or(""), v["fill"].as_str().unwrap_or("x").repeat(v["n"].as_u64().unwrap_or(0) as usize)),
+        _ => String::new(),
+    }
+}
+fn u(v: &Value) -> u64 {
+    v.as_u64().unwrap_or(0)
+}
+
+fn std_si() -> Value {
+    json!({"t":"si","minb":4096,"maxb":4096,"minf":14,"maxf":9000,"rate":44100,"ch":2,"bps":16,"total":441000,"md5":1})
+}
+
+fn build_si(s: &Value) -> Result<Block, String> {
+    Ok(Block::Streaminfo(Streaminfo {
+        minimum_block_size: u(&s["minb"]) as u16,
+        maximum_block_size: u(&s["maxb"]) as u16,
+        minimum_frame_size: NonZero::new(u(&s["minf"]) as u32),
+        maximum_frame_size: NonZero::new(u(&s["maxf"]) as u32),
+        sample_rate: u(&s["rate"]) as u32,
+        channels: NonZero::new(u(&s["ch"]) as u8).ok_or("channels:0")?,
+        bits_per_sample: SignedBitCount::<32>::try_from(u(&s["bps"]) as u32).map_err(|_| "bits_per_sample")?,
+        total_samples: NonZero::new(u(&s["total"])),
+        md5: match u(&s["md5"]) {
+            0 => None,
+            1 => Some(MD5_PATTERN),
+            _ => Some([0; 16]),
+        },
+    }))
+}
+
+fn seek_point(v: &Value) -> SeekPoint {
+    match v.as_array() {
+        Some(a) => SeekPoint::Defined { sample_offset: u(&a[0]), byte_offset: u(&a[1]), frame_samples: u(&a[2]) as u16 },
+        None => SeekPoint::Placeholder,
+    }
+}
+
+fn digits(n: usize) -> Vec<Digit> {
+    (0..n).map(|i| Digit::try_from(b'0' + ((i * 7 + 1) % 10) as u8).unwrap()).collect()
+}
+
+struct CueSpec {
+    parse: bool,
+    cdda: bool,
+    tracks: usize,
+    k: usize,
+    idx0: bool,
+    catalog: usize,
+    isrc: usize,
+    pre: bool,
+    non_audio: bool,
+    lead_in: u64,
+}
+impl CueSpec {
+    fn from(s: &Value) -> Self {
+        CueSpec {
+            parse: s["via"] == "parse",
+            cdda: s["cdda"].as_bool().unwrap_or(false),
+            tracks: u(&s["tracks"]) as usize,
+            k: u(&s["k"]) as usize,
+            idx0: s["idx0"].as_bool().unwrap_or(false),
+            catalog: u(&s["catalog"]) as usize,
+            isrc: u(&s["isrc"]) as usize,
+            pre: s["pre"].as_bool().unwrap_or(false),
+            non_audio: s["non_audio"].as_bool().unwrap_or(false),
+            lead_in: u(&s["lead_in"]),
+        }
+    }
+    fn json(&self) -> Value {
+        json!({"t":"cue","via": if self.parse {"parse"} else {"ctor"},"cdda":self.cdda,"tracks":self.tracks,"k":self.k,"idx0":self.idx0,"catalog":self.catalog,"isrc":self.isrc,"pre":self.pre,"non_audio":self.non_audio,"lead_in":self.lead_in})
+    }
+    fn total(&self) -> u64 {
+        if self.cdda {
+            (self.tracks * self.k + 75) as u64 * 588
+        } else {
+            let x = (self.tracks * self.k * 3 + 1000) as u64;
+            if x % 588 == 0 { x + 1 } else { x }
+        }
+    }
+    fn number(&self, i: usize) -> u8 {
+        ((if self.idx0 { 0 } else { 1 }) + i) as u8 // wraps past 255 on purpose: 256 index points cannot be numbered otherwise
+    }
+    fn sheet(&self) -> String {
+        let mut s = String::new();
+        if self.catalog > 0 {
+            s.push_str("CATALOG ");
+            for d in digits(self.catalog) {
+                s.push_str(&d.to_string());
+            }
+            s.push('\n');
+        }
+        s.push_str("FILE \"x.wav\" WAVE\n");
+        for t in 0..self.tracks {
+            s.push_str(&format!("  TRACK {:02} AUDIO\n", t + 1));
+            if self.isrc > 0 {
+                s.push_str(&format!("    ISRC {}\n", ISRCS[self.isrc]));
+            }
+            if self.pre {
+                s.push_str("    FLAGS PRE\n");
+            }
+            for i in 0..self.k {
+                let pos = t * self.k + i;
+                if self.cdda {
+                    s.push_str(&format!("    INDEX {:02} {:02}:{:02}:{:02}\n", self.number(i), pos / 4500, (pos / 75) % 60, pos % 75));
+                } else {
+                    s.push_str(&format!("    INDEX {:02} {}\n", self.number(i), pos * 3));
+                }
+            }
+        }
+        s
+    }
+    fn build(&self) -> Result<Block, String> {
+        if self.parse {
+            return Cuesheet::parse(self.total(), &self.sheet()).map(Block::Cuesheet).map_err(|e| format!("parse:{e:?}"));
+        }
+        let isrc = || -> Result<ISRC, String> { if self.isrc == 0 { Ok(ISRC::None) } else { ISRCS[self.isrc].parse::<ISRC>().map_err(|e| format!("isrc:{e:?}")) } };
+        if self.cdda {
+            let off = |frames: usize| CDDAOffset::try_from(frames as u64 * 588).map_err(|_| "cdda-offset".to_string());
+            let mut tracks: Vec<TrackCDDA> = Vec::with_capacity(self.tracks);
+            for t in 0..self.tracks {
+                let mut pts = Vec::with_capacity(self.k);
+                for i in 0..self.k {
+                    pts.push(Index { number: self.number(i), offset: off(i)? });
+                }
+                let c: Contiguous<100, Index<CDDAOffset>> = pts.try_into().map_err(|_| "indices:NonContiguous")?;
+                let iv: IndexVec<100, CDDAOffset> = c.try_into().map_err(|e| format!("indexvec:{e:?}"))?;
+                tracks.push(TrackCDDA { offset: off(t * self.k)?, number: NonZero::new((t + 1) as u8).ok_or("track-number")?, isrc: isrc()?, non_audio: self.non_audio, pre_emphasis: self.pre, index_points: iv });
+            }
+            let tracks: Contiguous<99, TrackCDDA> = tracks.try_into().map_err(|_| "tracks:NonContiguous")?;
+            let lead_out = LeadOutCDDA::new(tracks.last(), CDDAOffset::try_from(self.total()).map_err(|_| "cdda-offset")?).map_err(|e| format!("leadout:{e:?}"))?;
+            let catalog_number = match self.catalog {
+                0 => None,
+                13 => Some(<[Digit; 13]>::try_from(digits(13)).unwrap()),
+                _ => return Err("catalog:not-expressible".into()),
+            };
+            Ok(Block::Cuesheet(Cuesheet::CDDA { catalog_number, lead_in_samples: self.lead_in, tracks, lead_out }))
+        } else {
+            let mut tracks: Vec<TrackNonCDDA> = Vec::with_capacity(self.tracks);
+            for t in 0..self.tracks {
+                let pts: Vec<Index<u64>> = (0..self.k).map(|i| Index { number: self.number(i), offset: i as u64 * 3 }).collect();
+                let c: Contiguous<256, Index<u64>> = pts.try_into().map_err(|_| "indices:NonContiguous")?;
+                let iv: IndexVec<256, u64> = c.try_into().map_err(|e| format!("indexvec:{e:?}"))?;
+                tracks.push(TrackNonCDDA { offset: (t * self.k * 3) as u64, number: NonZero::new((t + 1) as u8).ok_or("track-number")?, isrc: isrc()?, non_audio: self.non_audio, pre_emphasis: self.pre, index_points: iv });
+            }
+            let tracks: Contiguous<254, TrackNonCDDA> = tracks.try_into().map_err(|_| "tracks:NonContiguous")?;
+            let lead_out = LeadOutNonCDDA::new(tracks.last(), self.total()).map_err(|e| format!("leadout:{e:?}"))?;
+            Ok(Block::Cuesheet(Cuesheet::NonCDDA { catalog_number: digits(self.catalog), tracks, lead_out }))
+        }
+    }
+}
+
+/// Ok(block) or Err(label of the constructor that refused the value)
+fn build(s: &Value) -> Result<Block, String> {
+    match s["t"].as_str().unwrap_or("") {
+        "si" => build_si(s),
+        "pad" => Ok(Block::Padding(Padding { size: BlockSize::try_from(u(&s["size"])).map_err(|_| "BlockSize")? })),
+        "app" => Ok(Block::Application(Application { id: u(&s["id"]) as u32, data: pat(u(&s["len"]) as usize, 7) })),
+        "seek" => {
+            let pts: Vec<SeekPoint> = s["pts"].as_array().map(|a| a.iter().map(seek_point).collect()).unwrap_or_default();
+            Ok(Block::SeekTable(SeekTable { points: pts.try_into().map_err(|_| "points:NonContiguous")? }))
+        }
+        "seekbig" => {
+            let (d, p) = (u(&s["defined"]), u(&s["placeholders"]));
+            let pts: Vec<SeekPoint> = (0..d).map(|i| SeekPoint::Defined { sample_offset: i * 4096, byte_offset: i * 100, frame_samples: 4096 }).chain((0..p).map(|_| SeekPoint::Placeholder)).collect();
+            Ok(Block::SeekTable(SeekTable { points: pts.try_into().map_err(|_| "points:NonContiguous")? }))
+        }
+        "vc" => Ok(Block::VorbisComment(VorbisComment { vendor_string: text(&s["vendor"]), fields: s["fields"].as_array().map(|a| a.iter().map(text).collect()).unwrap_or_default() })),
+        "pic" => Ok(Block::Picture(Picture {
+            picture_type: PTYPES[u(&s["ptype"]) as usize % 21],
+            media_type: text(&s["media"]),
+            description: text(&s["desc"]),
+            width: u(&s["w"]) as u32,
+            height: u(&s["h"]) as u32,
+            color_depth: u(&s["depth"]) as u32,
+            colors_used: NonZero::new(u(&s["colors"]) as u32),
+            data: pat(u(&s["len"]) as usize, 3),
+        })),
+        "picnew" => {
+            let img = match s["img"].as_str().unwrap_or("") {
+                "png" => super::c12_meta::png(2, 8, false, None),
+                "png-palette" => super::c12_meta::png(3, 8, true, Some(12)),
+                "jpeg" => super::c12_meta::jpeg(0xC0, 1),
+                _ => super::c12_meta::gif(b"89a"),
+            };
+            Picture::new(PTYPES[u(&s["ptype"]) as usize % 21], text(&s["desc"]), img).map(Block::Picture).map_err(|e| format!("Picture::new:{e:?}"))
+        }
+        "cue" => CueSpec::from(s).build(),
+        other => Err(format!("unknown-spec:{other}")),
+    }
+}
+
+// ---------------------------------------------------------------------------------------------
+// independent models
+
+const MAX: u64 = (1 << 24) - 1;
+
+fn kind(b: &Block) -> &'static str {
+    match b {
+        Block::Streaminfo(_) => "si",
+        Block::Padding(_) => "pad",
+        Block::Application(_) => "app",
+        Block::SeekTable(_) => "seek",
+        Block::VorbisComment(_) => "vc",
+        Block::Cuesheet(_) => "cue",
+        Block::Picture(_) => "pic",
+    }
+}
+fn type_code(b: &Block) -> u8 {
+    match b {
+        Block::Streaminfo(_) => 0,
+        Block::Padding(_) => 1,
+        Block::Application(_) => 2,
+        Block::SeekTable(_) => 3,
+        Block::VorbisComment(_) => 4,
+        Block::Cuesheet(_) => 5,
+        Block::Picture(_) => 6,
+    }
+}
+/// body size from the field lengths and the format's layout (RFC 9639 §8), not from the crate's writer
+fn model_size(b: &Block) -> u64 {
+    match b {
+        Block::Streaminfo(_) => 34,
+        Block::Padding(p) => u32::from(p.size) as u64,
+        Block::Application(a) => 4 + a.data.len() as u64,
+        Block::SeekTable(s) => 18 * s.points.len() as u64,
+        Block::VorbisComment(v) => 4 + v.vendor_string.len() as u64 + 4 + v.fields.iter().map(|f| 4 + f.len() as u64).sum::<u64>(),
+        Block::Cuesheet(Cuesheet::CDDA { tracks, .. }) => 396 + tracks.iter().map(|t| 36 + 12 * t.index_points.len() as u64).sum::<u64>() + 36,
+        Block::Cuesheet(Cuesheet::NonCDDA { tracks, .. }) => 396 + tracks.iter().map(|t| 36 + 12 * t.index_points.len() as u64).sum::<u64>() + 36,
+        Block::Picture(p) => 32 + p.media_type.len() as u64 + p.description.len() as u64 + p.data.len() as u64,
+    }
+}
+/// a value that the format cannot carry although the types allow it (must be refused, never a panic)
+fn unrepresentable(b: &Block) -> Option<&'static str> {
+    match b {
+        Block::Cuesheet(Cuesheet::CDDA { tracks, .. }) if tracks.iter().any(|t| t.index_points.len() > 255) => Some("index-count>255"),
+        Block::Cuesheet(Cuesheet::NonCDDA { tracks, .. }) if tracks.iter().any(|t| t.index_points.len() > 255) => Some("index-count>255"),
+        _ if model_size(b) > MAX => Some("oversize-block"),
+        _ => None,
+    }
+}
+/// the list-level rule a list breaks, if any
+fn broken_rule(blocks: &[Block]) -> Option<&'static str> {
+    if !matches!(blocks.first(), Some(Block::Streaminfo(_))) {
+        return Some("no-streaminfo-first");
+    }
+    let count = |f: &dyn Fn(&Block) -> bool| blocks.iter().filter(|b| f(b)).count();
+    if count(&|b| matches!(b, Block::Streaminfo(_))) > 1 {
+        return Some("duplicate-streaminfo");
+    }
+    if count(&|b| matches!(b, Block::SeekTable(_))) > 1 {
+        return Some("two-seektables");
+    }
+    if count(&|b| matches!(b, Block::VorbisComment(_))) > 1 {
+        return Some("two-comments");
+    }
+    if count(&|b| matches!(b, Block::Picture(Picture { picture_type: PictureType::Png32x32, .. }))) > 1 {
+        return Some("two-png-icons");
+    }
+    if count(&|b| matches!(b, Block::Picture(Picture { picture_type: PictureType::GeneralFileIcon, .. }))) > 1 {
+        return Some("two-general-icons");
+    }
+    blocks.iter().find_map(unrepresentable)
+}
+
+/// independent header walk: (type, last, length, body offset)
+fn walk(bytes: &[u8]) -> Result<Vec<(u8, bool, usize, usize)>, String> {
+    if bytes.get(..4) != Some(b"fLaC") {
+        return Err("no fLaC tag".into());
+    }
+    let mut out = Vec::new();
+    let mut o = 4;
+    loop {
+        let h = bytes.get(o..o + 4).ok_or(format!("header at {o} runs past the end ({} bytes)", bytes.len()))?;
+        let len = ((h[1] as usize) << 16) | ((h[2] as usize) << 8) | h[3] as usize;
+        let last = h[0] & 0x80 != 0;
+        if o + 4 + len > bytes.len() {
+            return Err(format!("block at {o} declares {len} bytes, only {} remain", bytes.len() - o - 4));
+        }
+        out.push((h[0] & 0x7f, last, len, o + 4));
+        o += 4 + len;
+        if last {
+            break;
+        }
+    }
+    if o != bytes.len() {
+        return Err(format!("{} bytes follow the block flagged last", bytes.len() - o));
+    }
+    Ok(out)
+}
+
+fn err_name(e: &flac_codec::Error) -> String {
+    match e {
+        flac_codec::Error::Io(i) => format!("Io:{:?}", i.kind()),
+        flac_codec::Error::Cuesheet(c) => format!("Cuesheet:{c:?}"),
+        o => format!("{o:?}").split(['(', ' ', '{']).next().unwrap_or("?").to_string(),
+    }
+}
+fn short<T: std::fmt::Debug>(x: &T) -> String {
+    let s = format!("{x:?}");
+    if s.len() > 260 { format!("{}…[{} chars]", s.chars().take(260).collect::<String>(), s.len()) } else { s }
+}
+
+fn sizes(b: &Block) -> (Option<u32>, Option<u32>) {
+    fn f<M: MetadataBlock>(m: &M) -> (Option<u32>, Option<u32>) {
+        (m.bytes().map(u32::from), m.total_size().map(u32::from))
+    }
+    match b {
+        Block::Streaminfo(x) => f(x),
+        Block::Padding(x) => f(x),
+        Block::Application(x) => f(x),
+        Block::SeekTable(x) => f(x),
+        Block::VorbisComment(x) => f(x),
+        Block::Cuesheet(x) => f(x),
+        Block::Picture(x) => f(x),
+    }
+}
+
+// ---------------------------------------------------------------------------------------------
+// the check of one list
+
+type Findings = Vec<(String, String)>;
+struct Out {
+    label: String,
+    findings: Findings,
+    steps: u64,
+}
+
+/// one finding per signature clause (= per root cause); the observations of all entry points that show it are joined
+fn merge(mut f: Findings) -> Findings {
+    f.sort();
+    f.dedup();
+    let mut out: Findings = Vec::new();
+    for (c, t) in f {
+        match out.last_mut() {
+            Some((lc, lt)) if *lc == c => {
+                if lt.len() < 1500 {
+                    lt.push_str(" | ");
+                    lt.push_str(&t);
+                }
+            }
+            _ => out.push((c, t)),
+        }
+    }
+    out
+}
+
+fn refs(blocks: &[Block]) -> Vec<BlockRef<'_>> {
+    blocks.iter().map(|b| b.as_block_ref()).collect()
+}
+/// name of the struct field in which two Debug renderings first differ (detail class of a round-trip difference)
+fn diff_field(a: &str, b: &str) -> String {
+    let p = a.bytes().zip(b.bytes()).take_while(|(x, y)| x == y).count();
+    let head = &a.as_bytes()[..p.min(a.len())];
+    // walk the common prefix of the Debug rendering, tracking the field every open bracket belongs to
+    let mut stack: Vec<Option<String>> = Vec::new();
+    let mut cur: Option<String> = None;
+    let mut ident = String::new();
+    let mut i = 0;
+    while i < head.len() {
+        let c = head[i];
+        match c {
+            b'"' => {
+                i += 1;
+                while i < head.len() && head[i] != b'"' {
+                    if head[i] == b'\\' {
+                        i += 1;
+                    }
+                    i += 1;
+                }
+                ident.clear();
+            }
+            b':' if head.get(i + 1) == Some(&b' ') && !ident.is_empty() => {
+                cur = Some(std::mem::take(&mut ident));
+            }
+            b'{' | b'[' | b'(' => {
+                let eff = cur.clone().or_else(|| stack.last().cloned().flatten());
+                stack.push(eff);
+                cur = None;
+                ident.clear();
+            }
+            b'}' | b']' | b')' => {
+                cur = stack.pop().flatten();
+                ident.clear();
+            }
+            b',' => {
+                cur = None;
+                ident.clear();
+            }
+            c if c.is_ascii_alphanumeric() || c == b'_' => ident.push(c as char),
+            _ => ident.clear(),
+        }
+        i += 1;
+    }
+    cur.or_else(|| stack.last().cloned().flatten()).unwrap_or_else(|| "value".into())
+}
+/// (TYPE|field, description) of the first difference between what was written and what was read
+fn diff_class(want: &[BlockRef<'_>], got: &[BlockRef<'_>]) -> (String, String) {
+    for (i, (x, y)) in want.iter().zip(got).enumerate() {
+        if x != y {
+            let (dx, dy) = (format!("{x:?}"), format!("{y:?}"));
+            let field = if x.block_type() != y.block_type() { "block-type".to_string() } else { diff_field(&dx, &dy) };
+            return (format!("{}|{field}", x.block_type()), format!("block {i}: wrote {} read {}", short(x), short(y)));
+        }
+    }
+    ("LIST|block-count".into(), format!("{} blocks instead of {}", got.len(), want.len()))
+}
+#[allow(dead_code)]
+fn first_diff(a: &[BlockRef<'_>], b: &[BlockRef<'_>]) -> String {
+    if a.len() != b.len() {
+        return format!("{} blocks instead of {}", b.len(), a.len());
+    }
+    for (i, (x, y)) in a.iter().zip(b).enumerate() {
+        if x != y {
+            return format!("block {i}: wrote {} read {}", short(x), short(y));
+        }
+    }
+    "equal".into()
+}
+
+fn rb<T>(bytes: &[u8], blocks: &[Block], f: &mut Findings)
+where
+    T: MetadataBlock + PartialEq + std::fmt::Debug,
+{
+    let name = format!("{}", T::TYPE);
+    let want: Option<T> = blocks.iter().find(|b| b.block_type() == T::TYPE).and_then(|b| T::try_from(b.clone()).ok());
+    match guarded(|| read_block::<_, T>(bytes)) {
+        Err(p) => f.push((format!("reader-panic|panic@{}", panic_loc(&p)), format!("read_block::<{name}> panics on the writer's output: {p}"))),
+        Ok(Err(e)) => f.push((format!("reader-rejects-writer-output|{}", err_name(&e)), format!("read_block::<{name}> fails: {e:?}"))),
+        Ok(Ok(got)) => {
+            if got != want {
+                let field = diff_field(&format!("{want:?}"), &format!("{got:?}"));
+                f.push((format!("roundtrip|{name}|{field}"), format!("read_block::<{name}> returns {} instead of {}", short(&got), short(&want))));
+            }
+        }
+    }
+}
+
+/// `list`: write through `BlockList::blocks()` instead of the slice; `lenient`: the list contains an out-of-range
+/// STREAMINFO literal, for which either refusal or a faithful round trip is acceptable
+fn check(blocks: &[Block], list: Option<&BlockList>, lenient: bool) -> Out {
+    let mut f: Findings = Vec::new();
+    let mut steps = 1u64;
+    let kinds: String = blocks.iter().skip(1).map(kind).collect::<Vec<_>>().join("+");
+    let rule = broken_rule(blocks);
+    let w = guarded(|| {
+        let mut v = Vec::new();
+        match list {
+            Some(l) => write_blocks(&mut v, l.blocks()),
+            None => write_blocks(&mut v, blocks.iter()),
+        }
+        .map(|()| v)
+    });
+    let bytes = match w {
+        Err(p) => {
+            f.push((format!("writer-panic|panic@{}", panic_loc(&p)), format!("write_blocks panics on [{}]{}: {p}", blocks.iter().map(kind).collect::<Vec<_>>().join(","), rule.map(|r| format!(" (list breaks: {r})")).unwrap_or_default())));
+            return Out { label: format!("{kinds}:writer-panic"), findings: f, steps };
+        }
+        Ok(Err(e)) => {
+            // refusal: fine for invalid lists; for valid ones it is recorded as an outcome (the property does not oblige the writer to accept)
+            let label = match rule {
+                Some(r) => format!("{kinds}:refused-invalid[{r}]:{}", err_name(&e)),
+                None if lenient => format!("{kinds}:refused-out-of-range:{}", err_name(&e)),
+                None => format!("{kinds}:REFUSED-VALID:{}", err_name(&e)),
+            };
+            // size accounting of a refused oversize block: bytes() must say None
+            for b in blocks {
+                if model_size(b) > MAX {
+                    steps += 1;
+                    match guarded(|| sizes(b)) {
+                        Err(p) => f.push((format!("size|bytes()-panic@{}", panic_loc(&p)), format!("{}::bytes() panics: {p}", kind(b)))),
+                        Ok((Some(n), _)) => f.push((format!("size|oversize-reports-size|{}", kind(b)), format!("{} block of {} body bytes reports bytes() = {n}", kind(b), model_size(b)))),
+                        Ok(_) => {}
+                    }
+                }
+            }
+            return Out { label, findings: f, steps };
+        }
+        Ok(Ok(v)) => v,
+    };
+    if let Some(r) = rule {
+        f.push((format!("invalid-list-accepted|{r}"), format!("write_blocks returned Ok for a list that breaks '{r}': [{}] → {} bytes", blocks.iter().map(kind).collect::<Vec<_>>().join(","), bytes.len())));
+    }
+    // ---- header walk and size accounting
+    match walk(&bytes) {
+        Err(e) => f.push(("size|header-walk".to_string(), format!("written section is not a well-formed block chain: {e}"))),
+        Ok(hs) => {
+            if hs.len() != blocks.len() {
+                f.push(("size|header-walk".to_string(), format!("{} blocks written for a list of {}", hs.len(), blocks.len())));
+            }
+            for (i, (b, h)) in blocks.iter().zip(&hs).enumerate() {
+                if h.0 != type_code(b) || h.1 != (i + 1 == blocks.len()) {
+                    f.push(("size|header-type-or-last-flag".to_string(), format!("block {i} ({}) has header type {} last {}", kind(b), h.0, h.1)));
+                }
+                let m = model_size(b);
+                if h.2 as u64 != m {
+                    f.push((format!("size|header-length|{}", kind(b)), format!("block {i} ({}): header length field {} but the fields occupy {m} bytes", kind(b), h.2)));
+                }
+                steps += 1;
+                match guarded(|| sizes(b)) {
+                    Err(p) => f.push((format!("size|bytes()-panic@{}", panic_loc(&p)), format!("{}::bytes() panics: {p}", kind(b)))),
+                    Ok((by, tot)) => {
+                        let want_tot = if h.2 as u64 + 4 <= MAX { Some(h.2 as u32 + 4) } else { None };
+                        if by != Some(h.2 as u32) {
+                            f.push((format!("size|bytes()|{}", kind(b)), format!("block {i} ({}): bytes() = {by:?}, {} body bytes were written", kind(b), h.2)));
+                        }
+                        if tot != want_tot {
+                            f.push((format!("size|total_size()|{}", kind(b)), format!("block {i} ({}): total_size() = {tot:?}, header + body = {}", kind(b), h.2 + 4)));
+                        }
+                    }
+                }
+            }
+            if blocks.len() == 2 && hs.len() == 2 && bytes.len() != 4 + 4 + 34 + 4 + hs[1].2 {
+                f.push(("size|measured-length".to_string(), format!("section is {} bytes, header says {}", bytes.len(), hs[1].2)));
+            }
+        }
+    }
+    // ---- read paths
+    let want = refs(blocks);
+    steps += 1;
+    let reread: Option<BlockList> = match guarded(|| BlockList::read(&bytes[..])) {
+        Err(p) => {
+            f.push((format!("reader-panic|panic@{}", panic_loc(&p)), format!("BlockList::read panics on the writer's output: {p}")));
+            None
+        }
+        Ok(Err(e)) => {
+            f.push((format!("reader-rejects-writer-output|{}", err_name(&e)), format!("write_blocks returned Ok ([{}], {} bytes) but BlockList::read fails: {e:?}", blocks.iter().map(kind).collect::<Vec<_>>().join(","), bytes.len())));
+            None
+        }
+        Ok(Ok(l)) => {
+            let got: Vec<BlockRef<'_>> = l.blocks().collect();
+            if got != want {
+                let (class, text) = diff_class(&want, &got);
+                f.push((format!("roundtrip|{class}"), format!("BlockList::read of the written section differs: {text}")));
+            }
+            Some(l)
+        }
+    };
+    steps += 1;
+    match guarded(|| read_blocks(&bytes[..]).collect::<Result<Vec<Block>, _>>()) {
+        Err(p) => f.push((format!("reader-panic|panic@{}", panic_loc(&p)), format!("read_blocks panics on the writer's output: {p}"))),
+        Ok(Err(e)) => f.push((format!("reader-rejects-writer-output|{}", err_name(&e)), format!("read_blocks fails: {e:?}"))),
+        Ok(Ok(v)) => {
+            if refs(&v) != want {
+                let (class, text) = diff_class(&want, &refs(&v));
+                f.push((format!("roundtrip|{class}"), format!("read_blocks differs: {text}")));
+            }
+        }
+    }
+    steps += 1;
+    match guarded(|| read_info(&bytes[..])) {
+        Err(p) => f.push((format!("reader-panic|panic@{}", panic_loc(&p)), format!("read_info panics on the writer's output: {p}"))),
+        Ok(Err(e)) => f.push((format!("reader-rejects-writer-output|{}", err_name(&e)), format!("read_info fails: {e:?}"))),
+        Ok(Ok(si)) => {
+            let got = Block::Streaminfo(si);
+            if Some(&got) != blocks.first() {
+                let field = diff_field(&format!("{:?}", blocks.first().unwrap()), &format!("{got:?}"));
+                f.push((format!("roundtrip|STREAMINFO|{field}"), format!("read_info returns {} for {}", short(&got), short(&blocks.first()))));
+            }
+        }
+    }
+    let small = bytes.len() <= 100_000;
+    let has = |t: BlockType| small || blocks.iter().any(|b| b.block_type() == t);
+    if has(BlockType::Streaminfo) {
+        steps += 1;
+        rb::<Streaminfo>(&bytes, blocks, &mut f);
+    }
+    if has(BlockType::Padding) {
+        steps += 1;
+        rb::<Padding>(&bytes, blocks, &mut f);
+    }
+    if has(BlockType::Application) {
+        steps += 1;
+        rb::<Application>(&bytes, blocks, &mut f);
+    }
+    if has(BlockType::SeekTable) {
+        steps += 1;
+        rb::<SeekTable>(&bytes, blocks, &mut f);
+    }
+    if has(BlockType::VorbisComment) {
+        steps += 1;
+        rb::<VorbisComment>(&bytes, blocks, &mut f);
+    }
+    if has(BlockType::Cuesheet) {
+        steps += 1;
+        rb::<Cuesheet>(&bytes, blocks, &mut f);
+    }
+    if has(BlockType::Picture) {
+        steps += 1;
+        rb::<Picture>(&bytes, blocks, &mut f);
+    }
+    // ---- converse on the produced section: what the reader accepted is written again and re-read
+    if let Some(l) = &reread {
+        steps += 2;
+        converse(l, "produced", &mut f);
+    }
+    let f = merge(f);
+    let label = if f.is_empty() { format!("{kinds}:ok") } else { format!("{kinds}:VIOLATION") };
+    Out { label, findings: f, steps }
+}
+
+/// a list the reader accepted must be writable, and the result must read back to an equal list
+fn converse(l: &BlockList, origin: &str, f: &mut Findings) {
+    let want: Vec<BlockRef<'_>> = l.blocks().collect();
+    let kinds = want.iter().skip(1).map(|b| format!("{}", b.block_type())).collect::<Vec<_>>().join("+");
+    match guarded(|| {
+        let mut v = Vec::new();
+        write_blocks(&mut v, l.blocks()).map(|()| v)
+    }) {
+        Err(p) => f.push((format!("converse|{origin}|writer-panic@{}", panic_loc(&p)), format!("a list the reader accepted ({kinds}) makes write_blocks panic: {p}"))),
+        Ok(Err(e)) => f.push((format!("converse|{origin}|accepted-list-not-writable|{}", err_name(&e)), format!("a list the reader accepted ({kinds}) is refused by write_blocks: {e:?}"))),
+        Ok(Ok(b2)) => match guarded(|| BlockList::read(&b2[..])) {
+            Err(p) => f.push((format!("converse|{origin}|reader-panic@{}", panic_loc(&p)), format!("re-reading the rewritten list panics: {p}"))),
+            Ok(Err(e)) => f.push((format!("converse|{origin}|rewritten-list-rejected|{}", err_name(&e)), format!("a list the reader accepted ({kinds}) was written again ({} bytes) and is now rejected: {e:?}", b2.len()))),
+            Ok(Ok(l2)) => {
+                let got: Vec<BlockRef<'_>> = l2.blocks().collect();
+                if got != want {
+                    let (class, text) = diff_class(&want, &got);
+                    f.push((format!("converse|{origin}|rewritten-list-differs|{class}"), format!("read→write→read changes the list: {text}")));
+                }
+            }
+        },
+    }
+}
+
+/// model of BlockList::insert: single-instance kinds replace the first block of that kind, the rest append
+fn insert_model(list: &mut Vec<Block>, b: Block) {
+    let single = matches!(b, Block::SeekTable(_) | Block::VorbisComment(_));
+    if single {
+        if let Some(x) = list.iter_mut().find(|x| x.block_type() == b.block_type()) {
+            *x = b;
+            return;
+        }
+    }
+    list.push(b);
+}
+fn insert_real(l: &mut BlockList, b: Block) {
+    match b {
+        Block::Streaminfo(_) => {}
+        Block::Padding(x) => {
+            l.insert(x);
+        }
+        Block::Application(x) => {
+            l.insert(x);
+        }
+        Block::SeekTable(x) => {
+            l.insert(x);
+        }
+        Block::VorbisComment(x) => {
+            l.insert(x);
+        }
+        Block::Cuesheet(x) => {
+            l.insert(x);
+        }
+        Block::Picture(x) => {
+            l.insert(x);
+        }
+    }
+}
+
+/// one case = a list of value specs; via "slice" | "blocklist"
+fn run_specs(specs: &[Value], via: &str, lenient: bool) -> Out {
+    let built = guarded(|| specs.iter().map(build).collect::<Vec<_>>());
+    let built = match built {
+        Err(p) => return Out { label: "ctor-panic".into(), findings: vec![(format!("ctor-panic|panic@{}", panic_loc(&p)), format!("a public constructor panics: {p}"))], steps: 1 },
+        Ok(b) => b,
+    };
+    let mut blocks = Vec::new();
+    for (s, b) in specs.iter().zip(built) {
+        match b {
+            Ok(b) => blocks.push(b),
+            Err(why) => return Out { label: format!("{}:ctor-refused:{}", s["t"].as_str().unwrap_or("?"), why), findings: vec![], steps: 1 },
+        }
+    }
+    if via == "blocklist" {
+        let Some(Block::Streaminfo(si)) = blocks.first().cloned() else {
+            return Out { label: "blocklist:needs-streaminfo".into(), findings: vec![], steps: 0 };
+        };
+        let mut model = vec![Block::Streaminfo(si.clone())];
+        let r = guarded(|| {
+            let mut l = BlockList::new(si);
+            for b in blocks.iter().skip(1) {
+                insert_real(&mut l, b.clone());
+            }
+            l
+        });
+        for b in blocks.iter().skip(1) {
+            insert_model(&mut model, b.clone());
+        }
+        match r {
+            Err(p) => Out { label: "blocklist:panic".into(), findings: vec![(format!("blocklist|panic@{}", panic_loc(&p)), format!("BlockList::insert panics: {p}"))], steps: 1 },
+            Ok(l) => {
+                let mut out = check(&model, Some(&l), lenient);
+                if l.blocks().collect::<Vec<_>>() != refs(&model) {
+                    out.findings.push(("blocklist|insert-semantics".into(), format!("BlockList after inserts holds {} instead of {}", short(&l.blocks().collect::<Vec<_>>()), short(&refs(&model)))));
+                }
+                out
+            }
+        }
+    } else {
+        check(&blocks, None, lenient)
+    }
+}
+
+fn exec(acc: &mut Acc, group: &str, specs: Vec<Value>, via: &str, lenient: bool) {
+    let out = run_specs(&specs, via, lenient);
+    acc.states += 1;
+    acc.executions += 1;
+    acc.transitions += out.steps;
+    acc.dim(&format!("cases_{group}"), 1);
+    // triples would add 13³ kind combinations: keep the result class only
+    let label = if group == "triple" { out.label.split_once(':').map(|x| x.1.to_string()).unwrap_or(out.label.clone()) } else { out.label.clone() };
+    acc.outcome(format!("{group}:{label}"));
+    if out.label.contains("REFUSED-VALID") {
+        let n = format!("writer refused a list the model considers valid: {} ({})", out.label, serde_json::to_string(&specs).unwrap_or_default().chars().take(300).collect::<String>());
+        if acc.notes.len() < 20 {
+            acc.notes.push(n);
+        }
+    }
+    for (clause, text) in out.findings {
+        let short_specs: String = serde_json::to_string(&specs).unwrap_or_default().chars().take(700).collect();
+        acc.violation(format!("C11|{clause}"), format!("{text} — values {short_specs} via {via}"), json!({"kind":"c11-list","blocks":specs,"via":via,"lenient":lenient}));
+    }
+}
+
+// ---------------------------------------------------------------------------------------------
+// enumerations
+
+fn streaminfo_product(ctx: &Ctx, acc: &mut Acc) {
+    let bs = [0u64, 16, 65535];
+    let fs = [0u64, 1, (1 << 24) - 1]; // 0 = None
+    let rates = [0u64, 1, (1 << 20) - 1];
+    let totals = [0u64, 1, (1 << 36) - 1]; // 0 = None
+    for minb in bs {
+        for maxb in bs {
+            for minf in fs {
+                for maxf in fs {
+                    for rate in rates {
+                        for ch in 1..=8u64 {
+                            for bps in 1..=32u64 {
+                                for total in totals {
+                                    for md5 in 0..2u64 {
+                                        if !ctx.mine() {
+                                            continue;
+                                        }
+                                        let s = json!({"t":"si","minb":minb,"maxb":maxb,"minf":minf,"maxf":maxf,"rate":rate,"ch":ch,"bps":bps,"total":total,"md5":md5});
+                                        if acc.states % 5000 == 0 {
+                                            acc.sample(json!({"kind":"c11-list","blocks":[s.clone()],"via":"slice"}));
+                                        }
+                                        exec(acc, "si", vec![s], "slice", false);
+                                    }
+                                }
+                            }
+                        }
+                    }
+                }
+            }
+        }
+    }
+    // the all-zero MD5 (a value the struct can hold)
+    if ctx.mine() {
+        let mut s = std_si();
+        s["md5"] = json!(2);
+        exec(acc, "si-md5-zero", vec![s], "slice", false);
+    }
+    // out-of-range literals: must be refused or round-trip, never panic
+    for (field, val) in [("rate", 1u64 << 20), ("rate", u32::MAX as u64), ("minf", 1 << 24), ("maxf", u32::MAX as u64), ("ch", 9), ("ch", 255), ("total", 1 << 36), ("total", u64::MAX)] {
+        if !ctx.mine() {
+            continue;
+        }
+        let mut s = std_si();
+        s[field] = json!(val);
+        exec(acc, "si-out-of-range", vec![s], "slice", true);
+    }
+}
+
+fn seek_alpha() -> Vec<Value> {
+    vec![json!([0, 0, 0]), json!([1, 1, 1]), json!([1u64 << 36, 1u64 << 40, 65535]), json!([u64::MAX - 1, u64::MAX, 65535]), json!([u64::MAX, 7, 7]), Value::Null]
+}
+fn vc_entries() -> Vec<Value> {
+    vec![json!(""), json!("TITLE=x"), json!("NOEQUALS"), json!("ÄÖ=ü€𝄞"), json!("="), json!("A=\u{0}b"), json!({"pre":"BIG=","fill":"é","n":32768})]
+}
+
+fn cue_specs() -> Vec<CueSpec> {
+    let mut v = Vec::new();
+    for cdda in [true, false] {
+        let tracks: &[usize] = if cdda { &[1, 2, 99, 100] } else { &[1, 2, 254, 255] };
+        let ks: &[usize] = if cdda { &[1, 2, 99, 100, 101] } else { &[1, 2, 255, 256, 257] };
+        let cats: &[usize] = if cdda { &[0, 13] } else { &[0, 13, 128, 129] };
+        for parse in [true, false] {
+            for &t in tracks {
+                for &k in ks {
+                    for idx0 in [false, true] {
+                        for &catalog in cats {
+                            for isrc in 0..5 {
+                                for pre in [false, true] {
+                                    let nas: &[bool] = if parse { &[false] } else { &[false, true] };
+                                    let lis: &[u64] = if parse || !cdda { &[88200] } else { &[0, 88200, u64::MAX] };
+                                    for &non_audio in nas {
+                                        for &lead_in in lis {
+                                            v.push(CueSpec { parse, cdda, tracks: t, k, idx0, catalog, isrc, pre, non_audio, lead_in: if cdda { lead_in } else { 0 } });
+                                        }
+                                    }
+                                }
+                            }
+                        }
+                    }
+                }
+            }
+        }
+    }
+    v
+}
+
+fn singles(ctx: &Ctx, acc: &mut Acc) {
+    let one = |ctx: &Ctx, acc: &mut Acc, group: &str, s: Value| {
+        if ctx.mine() {
+            exec(acc, group, vec![std_si(), s], "slice", false);
+        }
+    };
+    for size in [0u64, 1, (1 << 24) - 1, 1 << 24] {
+        one(ctx, acc, "pad", json!({"t":"pad","size":size}));
+    }
+    for id in [0u64, 0x72696666, u32::MAX as u64] {
+        for len in [0u64, 1, (1 << 24) - 5, (1 << 24) - 4] {
+            one(ctx, acc, "app", json!({"t":"app","id":id,"len":len}));
+        }
+    }
+    crate::core::for_each_seq(&(0..6usize).collect::<Vec<_>>(), 0, 3, |seq| {
+        let a = seek_alpha();
+        one(ctx, acc, "seek", json!({"t":"seek","pts": seq.iter().map(|i| a[*i].clone()).collect::<Vec<_>>()}));
+    });
+    for (d, p) in [(932067u64, 0u64), (900000, 32067), (0, 932067), (932068, 0), (0, 932068)] {
+        one(ctx, acc, "seek-max", json!({"t":"seekbig","defined":d,"placeholders":p}));
+    }
+    for vendor in [json!(""), json!("flac-codec 1.3.0"), json!("ベンダー✓ \u{1F3B5}")] {
+        crate::core::for_each_seq(&(0..7usize).collect::<Vec<_>>(), 0, 3, |seq| {
+            let e = vc_entries();
+            one(ctx, acc, "vc", json!({"t":"vc","vendor":vendor.clone(),"fields": seq.iter().map(|i| e[*i].clone()).collect::<Vec<_>>()}));
+        });
+    }
+    one(ctx, acc, "vc-oversize", json!({"t":"vc","vendor":"v","fields":[{"pre":"BIG=","fill":"x","n":1u64 << 24}]}));
+    one(ctx, acc, "vc-oversize", json!({"t":"vc","vendor":{"pre":"","fill":"v","n":(1u64 << 24) - 8},"fields":[]}));
+    one(ctx, acc, "vc-max", json!({"t":"vc","vendor":{"pre":"","fill":"v","n":(1u64 << 24) - 9},"fields":[]}));
+    for ptype in 0..21u64 {
+        for media in [json!(""), json!("image/png"), json!({"pre":"-->","fill":"m","n":300})] {
+            for desc in [json!(""), json!("ü description €"), json!({"pre":"","fill":"д","n":32768})] {
+                for (w, h, depth, colors) in [(0u64, 0u64, 0u64, 0u64), (u32::MAX as u64, u32::MAX as u64, u32::MAX as u64, u32::MAX as u64), (32, 32, 24, 1)] {
+                    for len in [0u64, 1, 70000] {
+                        one(ctx, acc, "pic", json!({"t":"pic","ptype":ptype,"media":media.clone(),"desc":desc.clone(),"w":w,"h":h,"depth":depth,"colors":colors,"len":len}));
+                    }
+                }
+            }
+        }
+        for img in ["png", "png-palette", "jpeg", "gif"] {
+            one(ctx, acc, "pic-new", json!({"t":"picnew","ptype":ptype,"img":img,"desc":"cover"}));
+        }
+    }
+    for len in [(1u64 << 24) - 1 - 32, (1 << 24) - 32, 1 << 24] {
+        one(ctx, acc, "pic-size-limit", json!({"t":"pic","ptype":3,"media":"","desc":"","w":1,"h":1,"depth":1,"colors":0,"len":len}));
+    }
+    for c in cue_specs() {
+        let g = if c.cdda { "cue-cdda" } else { "cue-non" };
+        if ctx.mine() {
+            exec(acc, g, vec![std_si(), c.json()], "slice", false);
+        }
+    }
+}
+
+fn representatives() -> Vec<Value> {
+    let cue = |cdda: bool| CueSpec { parse: false, cdda, tracks: 2, k: 2, idx0: true, catalog: 13, isrc: 1, pre: true, non_audio: false, lead_in: if cdda { 88200 } else { 0 } }.json();
+    let pic = |t: u64| json!({"t":"pic","ptype":t,"media":"image/png","desc":"d","w":32,"h":32,"depth":24,"colors":0,"len":9});
+    vec![
+        json!({"t":"pad","size":0}),
+        json!({"t":"pad","size":7}),
+        json!({"t":"app","id":0x72696666u32,"len":0}),
+        json!({"t":"app","id":1,"len":3}),
+        json!({"t":"seek","pts":[]}),
+        json!({"t":"seek","pts":[[0,0,16],[16,40,16],null]}),
+        json!({"t":"vc","vendor":"flac-codec 1.3.0","fields":[]}),
+        json!({"t":"vc","vendor":"","fields":["TITLE=ü","x"]}),
+        cue(true),
+        cue(false),
+        pic(1),
+        pic(2),
+        pic(3),
+    ]
+}
+
+fn pairs(ctx: &Ctx, acc: &mut Acc) {
+    let reps = representatives();
+    for a in &reps {
+        for b in &reps {
+            for via in ["slice", "blocklist"] {
+                if !ctx.mine() {
+                    continue;
+                }
+                exec(acc, "pair", vec![std_si(), a.clone(), b.clone()], via, false);
+            }
+        }
+    }
+}
+
+fn triples(ctx: &Ctx, acc: &mut Acc) {
+    let reps = representatives();
+    for a in &reps {
+        for b in &reps {
+            for c in &reps {
+                for via in ["slice", "blocklist"] {
+                    if !ctx.mine() {
+                        continue;
+                    }
+                    exec(acc, "triple", vec![std_si(), a.clone(), b.clone(), c.clone()], via, false);
+                }
+            }
+        }
+    }
+}
+
+fn invalid(ctx: &Ctx, acc: &mut Acc) {
+    let pad = json!({"t":"pad","size":3});
+    let seek = json!({"t":"seek","pts":[[0,0,16]]});
+    let seek2 = json!({"t":"seek","pts":[]});
+    let vc = json!({"t":"vc","vendor":"v","fields":["A=b"]});
+    let vc2 = json!({"t":"vc","vendor":"w","fields":[]});
+    let pic = |t: u64, l: u64| json!({"t":"pic","ptype":t,"media":"image/png","desc":"","w":32,"h":32,"depth":24,"colors":0,"len":l});
+    let big_app = json!({"t":"app","id":1,"len":(1u64 << 24) - 4});
+    let big_pic = pic(3, 1 << 24);
+    let big_vc = json!({"t":"vc","vendor":"v","fields":[{"pre":"B=","fill":"x","n":1u64 << 24}]});
+    let mut si2 = std_si();
+    si2["rate"] = json!(48000);
+    let lists: Vec<Vec<Value>> = vec![
+        vec![],
+        vec![pad.clone()],
+        vec![vc.clone()],
+        vec![pad.clone(), std_si()],
+        vec![seek.clone(), std_si(), pad.clone()],
+        vec![std_si(), std_si()],
+        vec![std_si(), si2.clone()],
+        vec![std_si(), pad.clone(), si2],
+        vec![std_si(), seek.clone(), seek2.clone()],
+        vec![std_si(), seek.clone(), pad.clone(), seek.clone()],
+        vec![std_si(), vc.clone(), vc2.clone()],
+        vec![std_si(), vc.clone(), pad.clone(), vc.clone()],
+        vec![std_si(), pic(1, 4), pic(1, 5)],
+        vec![std_si(), pic(1, 4), pic(3, 4), pic(1, 4)],
+        vec![std_si(), pic(2, 4), pic(2, 5)],
+        vec![std_si(), pic(2, 4), vc.clone(), pic(2, 4)],
+        vec![std_si(), pic(1, 4), pic(2, 4), pic(3, 4), pic(3, 4)], // valid: one of each icon, covers repeat
+        vec![std_si(), big_app.clone()],
+        vec![std_si(), pad.clone(), big_app.clone()],
+        vec![std_si(), big_app, pad.clone()],
+        vec![std_si(), big_pic.clone()],
+        vec![std_si(), vc.clone(), big_pic, pad.clone()],
+        vec![std_si(), big_vc.clone()],
+        vec![std_si(), pad.clone(), big_vc, seek],
+    ];
+    for l in lists {
+        if ctx.mine() {
+            exec(acc, "invalid", l, "slice", false);
+        }
+    }
+}
+
+// ---- converse over foreign bytes
+
+fn converse_bases() -> Vec<(&'static str, Vec<Value>)> {
+    let cue = |cdda: bool| CueSpec { parse: false, cdda, tracks: if cdda { 1 } else { 2 }, k: 2, idx0: true, catalog: 13, isrc: 1, pre: true, non_audio: true, lead_in: if cdda { 88200 } else { 0 } }.json();
+    let pic = |t: u64| json!({"t":"pic","ptype":t,"media":"image/png","desc":"d","w":32,"h":32,"depth":24,"colors":2,"len":4});
+    vec![
+        ("si", vec![std_si()]),
+        ("si+pad", vec![std_si(), json!({"t":"pad","size":3})]),
+        ("si+app", vec![std_si(), json!({"t":"app","id":0x72696666u32,"len":3})]),
+        ("si+seek", vec![std_si(), json!({"t":"seek","pts":[[0,0,16],[16,40,16],null]})]),
+        ("si+vc", vec![std_si(), json!({"t":"vc","vendor":"v","fields":["A=b","ü=€"]})]),
+        ("si+pic", vec![std_si(), pic(3)]),
+        ("si+cue-cdda", vec![std_si(), cue(true)]),
+        ("si+cue-non", vec![std_si(), cue(false)]),
+        ("si+vc+pad+app", vec![std_si(), json!({"t":"vc","vendor":"","fields":["x"]}), json!({"t":"pad","size":2}), json!({"t":"app","id":7,"len":1})]),
+        ("si+icons+seek", vec![std_si(), pic(1), pic(2), json!({"t":"seek","pts":[[5,5,5]]})]),
+    ]
+}
+
+fn base_bytes(specs: &[Value]) -> Option<Vec<u8>> {
+    let blocks: Vec<Block> = specs.iter().map(build).collect::<Result<_, _>>().ok()?;
+    let mut v = Vec::new();
+    guarded(|| write_blocks(&mut v, blocks.iter())).ok()?.ok()?;
+    Some(v)
+}
+
+fn foreign_case(bytes: &[u8]) -> (String, Findings) {
+    let mut f = Findings::new();
+    let label = match guarded(|| BlockList::read(bytes)) {
+        Err(p) => {
+            // totality of the reader is C12's subject; recorded here as an outcome only
+            format!("reader-panic@{}", panic_loc(&p))
+        }
+        Ok(Err(e)) => format!("rejected:{}", err_name(&e)),
+        Ok(Ok(l)) => {
+            converse(&l, "foreign", &mut f);
+            if f.is_empty() { "accepted:rewritten-equal".to_string() } else { "accepted:VIOLATION".to_string() }
+        }
+    };
+    (label, f)
+}
+
+fn foreign(ctx: &Ctx, acc: &mut Acc) {
+    for (name, specs) in converse_bases() {
+        let Some(base) = base_bytes(&specs) else {
+            if ctx.shard == 0 {
+                acc.notes.push(format!("converse base '{name}' could not be written by the crate and was skipped"));
+            }
+            continue;
+        };
+        for i in 0..base.len() {
+            for v in 0..=255u8 {
+                if v == base[i] {
+                    continue;
+                }
+                if !ctx.mine() {
+                    continue;
+                }
+                let mut m = base.clone();
+                m[i] = v;
+                let (label, findings) = foreign_case(&m);
+                acc.states += 1;
+                acc.executions += 1;
+                acc.transitions += 3;
+                acc.dim("cases_converse_foreign", 1);
+                acc.outcome(format!("converse:{label}"));
+                for (clause, text) in findings {
+                    acc.violation(format!("C11|{clause}"), format!("section '{name}' with byte {i} set to {v:#04x}: {text}"), json!({"kind":"c11-bytes","base":name,"pos":i,"value":v,"hex":hex(&m)}));
+                }
+            }
+        }
+    }
+}
+
+pub fn run(ctx: &Ctx, acc: &mut Acc) {
+    let t = std::time::Instant::now();
+    streaminfo_product(ctx, acc);
+    acc.dim("cpu_ms_streaminfo", t.elapsed().as_millis() as u64);
+    let t = std::time::Instant::now();
+    singles(ctx, acc);
+    acc.dim("cpu_ms_singles", t.elapsed().as_millis() as u64);
+    let t = std::time::Instant::now();
+    pairs(ctx, acc);
+    if ctx.thorough() {
+        triples(ctx, acc);
+    }
+    invalid(ctx, acc);
+    acc.dim("cpu_ms_pairs_invalid", t.elapsed().as_millis() as u64);
+    let t = std::time::Instant::now();
+    foreign(ctx, acc);
+    acc.dim("cpu_ms_converse_foreign", t.elapsed().as_millis() as u64);
+}
+
+pub fn replay(v: &Value) -> Option<(bool, String)> {
+    let sig = v["signature"].as_str().unwrap_or("");
+    let still = |f: &Findings| if sig.is_empty() { !f.is_empty() } else { f.iter().any(|(c, _)| format!("C11|{c}") == sig) };
+    match v["kind"].as_str()? {
+        "c11-list" => {
+            let specs: Vec<Value> = v["blocks"].as_array()?.clone();
+            let out = run_specs(&specs, v["via"].as_str().unwrap_or("slice"), v["lenient"].as_bool().unwrap_or(false));
+            Some((still(&out.findings), format!("{}; findings: {:?}", out.label, out.findings)))
+        }
+        "c11-bytes" => {
+            let bytes = unhex(v["hex"].as_str()?);
+            let (label, f) = foreign_case(&bytes);
+            Some((still(&f), format!("{label}; findings: {f:?}")))
+        }
+        _ => None,
+    }
+}
